@@ -122,6 +122,10 @@ func (s *Sched) canSend(cs *chanState, me *Thread) bool {
 	if len(cs.buf) < cs.cap {
 		return true
 	}
+	if cs.cap > 0 {
+		// full buffer: a pending receiver will drain it when it runs; until then we wait
+		return false
+	}
 	t, _ := s.pendingReceiver(cs, me)
 	return t != nil
 }
